@@ -317,6 +317,13 @@ func checkC07Globals(c *Ctx) {
 			elem := g.Type().(*types.Pointer).Elem()
 			c.TouchName(path + "." + n)
 			w := writes[g]
+			// a package-level OBJECT whose methods keep internal state is shared mutable state even when the variable is
+			// never stored to: third-party struct/interface values and the std types known to be stateful are accepted
+			// only from the frozen list of types documented as safe for concurrent use
+			if why := statefulObjectType(p, elem); why != "" {
+				r.Bad(sp.Pkg.Name()+"."+n, "global", g.Pos(), "package-level variable of type "+elem.String()+" ("+why+"): its methods may keep internal state, and every goroutine using any handle shares the one object")
+				continue
+			}
 			switch {
 			case len(w) == 0:
 				r.OK(sp.Pkg.Name()+"."+n, "global", g.Pos(), "never stored to after package initialisation")
@@ -521,4 +528,44 @@ func itoa(n int) string {
 		s = "-" + s
 	}
 	return s
+}
+
+// statefulObjectType classifies the type of a package-level variable.  "" = fine (basic types, functions, slices and
+// maps - whose element writes the who-writes part of the rule sees -, repository types, and the frozen list of
+// std types documented as safe for concurrent use or immutable).
+func statefulObjectType(p *Program, t types.Type) string {
+	if pt, ok := t.(*types.Pointer); ok {
+		t = pt.Elem()
+	}
+	n, ok := t.(*types.Named)
+	if !ok || n.Obj().Pkg() == nil {
+		return ""
+	}
+	switch n.Underlying().(type) {
+	case *types.Struct, *types.Interface:
+	default:
+		return ""
+	}
+	path := n.Obj().Pkg().Path()
+	full := path + "." + n.Obj().Name()
+	if p.ssaPkgs[path] != nil || strings.HasPrefix(path, pkgGorm) {
+		return ""
+	}
+	safe := map[string]bool{
+		"sync.Map": true, "sync.Pool": true, "sync.Mutex": true, "sync.RWMutex": true, "sync.Once": true, "sync.WaitGroup": true,
+		"regexp.Regexp": true, "reflect.Type": true, "time.Location": true, "time.Time": true, "strings.Replacer": true,
+		"errors.errorString": true, "context.Context": true, "database/sql.NullString": true,
+	}
+	if safe[full] {
+		return ""
+	}
+	if !strings.Contains(strings.SplitN(path, "/", 2)[0], ".") {
+		// std: only the types known to keep state between calls
+		stateful := map[string]bool{"strings.Builder": true, "bytes.Buffer": true, "math/rand.Rand": true, "bufio.Reader": true, "bufio.Writer": true, "bufio.Scanner": true, "text/template.Template": false}
+		if stateful[full] {
+			return "stateful std type"
+		}
+		return ""
+	}
+	return "type of another module, not on the list of types safe for concurrent use"
 }
